@@ -66,9 +66,13 @@ def run(c):
     for v in VARS + ["KEK", "dbx", "BootOrder"]:
         for sg in (False, True):
             hs.append([W(v, "d1", sg), R(v), W(v, "d1b", sg), R(v), W(v, "d1", False), R(v), R(v)])
+    # the platform-mode variables are registers like the others: what they return does not depend on the key variables
+    for sg in (False, True):
+        hs.append([W("SetupMode", "d1", False), W("PK", "dc", sg), R("SetupMode"), W("SecureBoot", "d1b", False), R("PK"), R("SecureBoot"), W("PK", "empty", sg), R("SetupMode"), W("SetupMode", "d3", False),
+                   W("KEK", "d1", sg), R("SetupMode"), R("SecureBoot")])
     scen = []
     for i, h in enumerate(hs):
-        s = {"sc": i, "ops": h}
+        s = {"sc": i, "ops": h, "tz": ("", "-03:30", "+09:00")[i % 3]}      # process time zone
         if i % 3 == 1:   # pre-populated stores
             s["pre"] = {c.rng.choice(["db", "PK", "KEK"]): c.rng.choice(VALS[1:])}
         scen.append(s)
